@@ -189,7 +189,7 @@ func newVSubEnts(chain []cid.Cid, adsDepthLimit, firstSyncDepth, segDepthLimit, 
 	v := &vSub{}
 	mu, scoped, dispatch := wrapBlockHook()
 	ssb := builder.NewSelectorSpecBuilder(basicnode.Prototype.Any)
-	pid := peer.ID("publisher-1")
+	pid := vPeerID("publisher-1")
 	v.dispatch = dispatch
 	v.sy = &vSyncer{chain: chain, peerID: pid, hook: dispatch}
 	s := &Subscriber{
@@ -283,4 +283,19 @@ func ghostLock() func() {
 	}
 	ghostMu.Lock()
 	return ghostMu.Unlock
+}
+
+// vPeerID: a valid peer ID (identity multihash of the name), so that it can
+// also be carried in a /p2p address component.
+func vPeerID(name string) peer.ID {
+	return peer.ID(append([]byte{0x00, byte(len(name))}, name...))
+}
+
+// vP2PAddr: /ip4/1.2.3.4/tcp/80/p2p/<id>
+func vP2PAddr(id peer.ID) multiaddr.Multiaddr {
+	raw := []byte{0x04, 1, 2, 3, 4, 0x06, 0, 80, 0xa5, 0x03, byte(len(id))}
+	raw = append(raw, id...)
+	m, err := multiaddr.NewMultiaddrBytes(raw)
+	verif_Assume(err == nil)
+	return m
 }
